@@ -48,7 +48,7 @@ static void pick(int from, int kind) {
 }
 static void sched_point(int kind) { if (sched_on && me >= 0 && me == running) { used_kinds[me] |= kind; pick(me, kind); } }
 __attribute__((no_instrument_function)) void __cyg_profile_func_enter(void *fn, void *site) { (void)fn; (void)site; if (K_FUNC_ON) sched_point(64); }
-__attribute__((no_instrument_function)) void __cyg_profile_func_exit(void *fn, void *site) { (void)fn; (void)site; }
+__attribute__((no_instrument_function)) void __cyg_profile_func_exit(void *fn, void *site) { (void)fn; (void)site; if (K_FUNC_ON) sched_point(128); }     /* a value returned through shared storage is exposed between the return and its use */
 void __real_ran_start(long); void __wrap_ran_start(long s) { sched_point(K_RANSTART); __real_ran_start(s); }
 long __real_ran_num_next(void); long __wrap_ran_num_next(void) { sched_point(K_RANNEXT); return __real_ran_num_next(); }
 int __real_rand(void); int __wrap_rand(void) { sched_point(K_RAND); return __real_rand(); }
@@ -74,6 +74,13 @@ static const job JOBS[] = {
 	{ "critic-r", "f {++g++} {--h--} {==i==}{>>j<<}\n\n{--old\n\npara--} y\n", XD | EXT_CRITIC_REJECT, FORMAT_HTML, 0 },
 	{ "opml-in", "<?xml version=\"1.0\"?>\n<opml version=\"1.0\"><head><title>T</title></head><body><outline text=\"H &amp; x\" _note=\"n&#10;m\"><outline text=\"S\"/></outline></body></opml>\n", XD | EXT_PARSE_OPML, FORMAT_HTML, 0 },
 	{ "meta", "Title: T *x*\nAuthor: A\nlatex mode: memoir\n\nbody [%title]\n", XD | EXT_COMPLETE, FORMAT_LATEX, 0 },
+	{ "img-a", "![a](i.png width=300px height=200px) *x* [l](u \"t\")\n", XD, FORMAT_HTML, 0 },
+	{ "img-b", "![b][r] _y_ <http://q.r/>\n\n[r]: j.png width=40 height=50% class=c\n", XD, FORMAT_HTML, 0 },
+	/* two kitchen sinks that differ in every value (thorough) */
+	{ "sink-a", "Title: SA\nAuthor: One\nBase Header Level: 2\n\n{{TOC}}\n\n# Alpha [la]\n\n\"qa\" text[^a] [#ca] [?ga] [>aa] [Alpha][] ![ia](a.png width=10px) `ca` $ma$ {++xa++} a--b\n\n| ta | tb |\n|:--|--:|\n| 1 | 2 |\n[Cap A][ta]\n\nterm a\n: def a\n\n```c\ncode a\n```\n\n[^a]: note a\n[#ca]: Cite A\n[?ga]: gloss a\n[>aa]: Abbr A\n", XD, FORMAT_HTML, 0 },
+	{ "sink-b", "Title: SB\nLanguage: fr\nHTML Header Level: 3\n\n# Beta\n\nBeta two\n--------\n\n'qb' words[^b][^c] [#cb][] [?gb] ![ib][rb] <x@y.z> ``cb`` \\\\(mb\\\\) {--xb--} c...d\n\n| u |\n|:-:|\n| 3 |\n\n> quote b\n\n1. one\n2. two\n\n[rb]: b.png height=20% \"Tb\"\n[^b]: note b\n[^c]: note c\n[#cb]: Cite B\n[?gb]: gloss b\n", XD, FORMAT_HTML, 0 },
+	{ "sink-b-latex", "Title: SB\nLanguage: fr\n\n# Beta\n\n'qb' words[^b] [#cb][] [?gb] ![ib](b.png height=20%) \\\\(mb\\\\) c...d\n\n| u |\n|:-:|\n| 3 |\n\n[^b]: note b\n[#cb]: Cite B\n[?gb]: gloss b\n", XD, FORMAT_LATEX, 0 },
+	{ "sink-a-fodt", "Title: SA\n\n# Alpha [la]\n\n\"qa\" text[^a] [#ca] ![ia](a.png width=10px) `ca` $ma$ a--b\n\n| ta | tb |\n|:--|--:|\n| 1 | 2 |\n[Cap A][ta]\n\n[^a]: note a\n[#ca]: Cite A\n", XD, FORMAT_FODT, 0 },
 	{ "de", "Title: D\nLanguage: de\n\n\"q\" 'r' text[^n]\n\n[^n]: n\n\n{{TOC}}\n\n# H\n", XD, FORMAT_HTML, 0 },
 };
 #define NJOBS ((int)(sizeof JOBS / sizeof JOBS[0]))
